@@ -543,9 +543,9 @@ func raceSupplement(r *ev.Report) {
 	if out, err := build.CombinedOutput(); err != nil {
 		ev.Fatal("cannot build the -race variant: %v\n%s", err, out)
 	}
-	rounds := "60"
+	rounds := "3"
 	if r.Thorough() {
-		rounds = "300"
+		rounds = "100"
 	}
 	cmd := exec.Command(bin, "-race-bodies", rounds)
 	cmd.Env = append(os.Environ(), "GORACE=halt_on_error=0", "GOMAXPROCS=16")
@@ -665,16 +665,14 @@ func main() {
 		r.FinishShard(*ev.FlagOut)
 	}
 	par.RunShards(r, len(names), 0)
-	if r.Thorough() || os.Getenv("VERIF_RACE_SUPPLEMENT") == "1" {
-		raceSupplement(r)
-	}
+	raceSupplement(r)
 	r.Traces = r.Executions()
 	r.Extra["scenarios"] = names
 	r.Assumptions = append(r.Assumptions,
 		"scheduling points: Mutex.Lock, WaitGroup.Wait, go (spawn), goroutine exit, dial (a fetch takes time), the output callback; sufficient for data-race-free code; accesses the scheduler does not see (plain memory) are not covered here - the fan-out's result determinism oracle and C06/C09 exercise them indirectly",
 		"UI scenarios run the pub/splicer/client fan-out inline (fork-join at the spawn point); the pub-level scenarios schedule it fully and show the result is schedule-independent",
 		"a scenario that does not finish a bound within its time budget reports the last completed bound (exhaustive only up to that bound)",
-		"thorough tier adds a free-running pass of the same scenario bodies under the Go race detector (sampling; declared as a supplement)",
+		"supplement (sampling, not the deciding step): the same scenario bodies are built with the Go race detector and run free-running without the scheduler, 3 rounds (quick) / 100 rounds (thorough); the detector is happens-before based, so a race is usually reported in the first round it is executed",
 		"the serial reference for atomicity is the set of final states of all non-preemptive schedules of the same harness")
 	r.Finish()
 }
